@@ -13,7 +13,7 @@ WOps == {[o |-> "append", runs |-> b] : b \in Batches}
         \cup {[o |-> "clear", s |-> s, e |-> e] : s \in 0..MaxLen, e \in 0..(MaxLen + 1)}
         \cup {[o |-> "get", i |-> i, bi |-> ""] : i \in 0..MaxLen}
         \cup {[o |-> "mro"], [o |-> "reopen"], [o |-> "sub"]}
-ROps == {[o |-> "proof", up |-> u, blk |-> b, hasup |-> (u > 0)] : u \in 0..MaxLen, b \in -1..(MaxLen - 1)}
+ROps == {[o |-> "proof", blk |-> b, hasup |-> u] : u \in BOOLEAN, b \in -1..(MaxLen - 1)}
         \cup {[o |-> "clear", s |-> s, e |-> e] : s \in 0..MaxLen, e \in 0..(MaxLen + 1)}
         \cup {[o |-> "get", i |-> i, bi |-> ""] : i \in 0..MaxLen}
         \cup {[o |-> "reopen"], [o |-> "append", runs |-> <<<<1, 1, 1>>>>]}
